@@ -23,144 +23,151 @@ def run(ctx):
 
     # ------------------------------------------------------------------ C13-fresh-env
     ctx.rule("C13-fresh-env", "a library body runs in a fresh root environment (never the importer's)")
-    news = [(b, t) for b, t in eld.calls() if callee_matches(t, "environment::LexicalScope::new")]
-    loops = eld.loop_blocks()
-    if len(news) != 1 or news[0][0] in loops:
-        ctx.report("C13-fresh-env", "new", "expected exactly one LexicalScope::new() outside the loops, found %d" % len(news),
-                   where_of(eld))
-    n_env_uses = 0
-    for b, t in eld.calls():
-        c = callee(t) or ""
-        if c.endswith("Interpreter::eval_import") or c.endswith("Interpreter::eval_expression_or_definition") \
-                or c.endswith("Interpreter::eval_expression") or c.endswith("Interpreter::eval_ast"):
-            envop = t["args"][-1]
-            cr = {n for _, n in p.call_roots(envop)}
-            ar = p.arg_roots(envop)
-            ok = cr == {"environment::LexicalScope::new"} and not ar
-            n_env_uses += 1
-            ctx.inst("C13-fresh-env", "%s@env" % c.rsplit("::", 1)[-1], {"call_roots": sorted(cr), "arg_roots": sorted(ar)})
-            if not ok:
-                ctx.report("C13-fresh-env", c.rsplit("::", 1)[-1], "the environment handed to %s derives from %s / "
-                           "parameters %s, expected only the fresh LexicalScope::new()" % (c, sorted(cr), sorted(ar)),
+    from . import libtables as _lt
+    ctx.rule("C13-exports-only", "only exported names leave the library, under their external names")
+    d_def = _lt.rule_definition(ctx, "C13-fresh-env", "C13-exports-only")
+    def _old_env():
+        news = [(b, t) for b, t in eld.calls() if callee_matches(t, "environment::LexicalScope::new")]
+        loops = eld.loop_blocks()
+        if len(news) != 1 or news[0][0] in loops:
+            ctx.report("C13-fresh-env", "new", "expected exactly one LexicalScope::new() outside the loops, found %d" % len(news),
+                       where_of(eld))
+        n_env_uses = 0
+        for b, t in eld.calls():
+            c = callee(t) or ""
+            if c.endswith("Interpreter::eval_import") or c.endswith("Interpreter::eval_expression_or_definition") \
+                    or c.endswith("Interpreter::eval_expression") or c.endswith("Interpreter::eval_ast"):
+                envop = t["args"][-1]
+                cr = {n for _, n in p.call_roots(envop)}
+                ar = p.arg_roots(envop)
+                ok = cr == {"environment::LexicalScope::new"} and not ar
+                n_env_uses += 1
+                ctx.inst("C13-fresh-env", "%s@env" % c.rsplit("::", 1)[-1], {"call_roots": sorted(cr), "arg_roots": sorted(ar)})
+                if not ok:
+                    ctx.report("C13-fresh-env", c.rsplit("::", 1)[-1], "the environment handed to %s derives from %s / "
+                               "parameters %s, expected only the fresh LexicalScope::new()" % (c, sorted(cr), sorted(ar)),
+                               where_of(eld, t))
+            if c.endswith("LexicalScope::new_child"):
+                ctx.report("C13-fresh-env", "child", "the library environment is created as a child of another scope",
                            where_of(eld, t))
-        if c.endswith("LexicalScope::new_child"):
-            ctx.report("C13-fresh-env", "child", "the library environment is created as a child of another scope",
-                       where_of(eld, t))
-    if n_env_uses < 2:
-        ctx.report("C13-fresh-env", "floor", "expected the import and the begin declarations to be evaluated here", where_of(eld))
+        if n_env_uses < 2:
+            ctx.report("C13-fresh-env", "floor", "expected the import and the begin declarations to be evaluated here", where_of(eld))
+    ctx.guarded('C13-fresh-env', d_def >= 2, _old_env)
 
     # ------------------------------------------------------------------ C13-exports-only
     ctx.rule("C13-exports-only", "only exported names leave the library, under their external names")
-    from . import privacy
-    privacy.require_restricted(ctx, "C13-exports-only", fb, "interpreter::library::Library", ["0", "1"],
-                               "an importer could read a library's private definitions directly instead of its export list")
-    libnew = [(b, t) for b, t in eld.calls() if callee_matches(t, "interpreter::library::Library::new")]
-    if len(libnew) != 1:
-        ctx.report("C13-exports-only", "Library::new", "expected one Library::new, found %d" % len(libnew), where_of(eld))
-    else:
-        b, t = libnew[0]
-        maplocal = mir.op_local(t["args"][1])
-        # all writers of the map
-        src = p.reach_locals(maplocal)
-        writers = []
-        for bb, tt in eld.calls():
-            for a in tt["args"][:1]:
-                l = mir.op_local(a)
-                if l is not None and eld.local_ty(l).startswith("&mut"):
-                    root, path = mir.trace_access(eld, a)
-                    if root in src and root != 1:
-                        writers.append((bb, tt))
-        names = sorted({callee(tt) for _, tt in writers})
-        ctx.inst("C13-exports-only", "map-writers", names)
-        for bb, tt in writers:
-            if not callee_matches(tt, "std::collections::HashMap::insert"):
-                ctx.report("C13-exports-only", "writer/%s" % (callee(tt) or "?").rsplit("::", 1)[-1],
-                           "the export map is written by %s (only per-export insert is expected)" % callee(tt), where_of(eld, tt))
-        ins = [(bb, tt) for bb, tt in writers if callee_matches(tt, "std::collections::HashMap::insert")]
-        gets = [(bb, tt) for bb, tt in eld.calls() if callee_matches(tt, "environment::LexicalScope::get")]
-        if len(ins) != 1 or len(gets) != 1:
-            ctx.report("C13-exports-only", "shape", "expected one insert and one environment lookup per export "
-                       "(found %d, %d)" % (len(ins), len(gets)), where_of(eld))
+    def _old_exports():
+        from . import privacy
+        privacy.require_restricted(ctx, "C13-exports-only", fb, "interpreter::library::Library", ["0", "1"],
+                                   "an importer could read a library's private definitions directly instead of its export list")
+        libnew = [(b, t) for b, t in eld.calls() if callee_matches(t, "interpreter::library::Library::new")]
+        if len(libnew) != 1:
+            ctx.report("C13-exports-only", "Library::new", "expected one Library::new, found %d" % len(libnew), where_of(eld))
         else:
-            (ib, it), (gb, gt) = ins[0], gets[0]
-            if ib not in loops or gb not in loops:
-                ctx.report("C13-exports-only", "loop", "exports are not copied out in a loop over the export specs", where_of(eld))
-            # environment of the lookup is the fresh one
-            cr = {n for _, n in p.call_roots(gt["args"][0])}
-            if cr != {"environment::LexicalScope::new"}:
-                ctx.report("C13-exports-only", "lookup-env", "exported values are looked up in %s" % sorted(cr), where_of(eld, gt))
-            # value inserted derives from the lookup
-            vroots = {n for _, n in p.call_roots(it["args"][2])}
-            if "environment::LexicalScope::get" not in vroots:
-                ctx.report("C13-exports-only", "value", "the exported value does not come from the library environment",
-                           where_of(eld, it))
-            # key = external name, lookup = internal name
-            kroot, kpath = mir.trace_access(eld, it["args"][1])
-            groot, gpath = mir.trace_access(eld, gt["args"][1])
-            ctx.inst("C13-exports-only", "names", {"insert_key": (kroot, kpath), "lookup_key": (groot, gpath)})
-            # both come from the (from, to) tuple; find the tuple aggregates and their variant sources
-            def spec_field(o):
-                """which field of which ExportSpec variant the operand reads, per defining aggregate"""
-                res = set()
-                l = mir.op_local(o)
-                reach = p.reach_locals(l)
-                return reach
-            tuples = []
-            for bb, i, s in eld.stmts():
-                if s["k"] == "assign" and s["rv"]["k"] == "aggregate" and s["rv"]["kind"]["k"] == "tuple" \
-                        and len(s["rv"]["ops"]) == 2:
-                    a0 = mir.trace_access(eld, s["rv"]["ops"][0])
-                    a1 = mir.trace_access(eld, s["rv"]["ops"][1])
-                    if any(x in ("Rename", "Direct") for x in a0[1] + a1[1]):
-                        tuples.append((s["place"]["local"], a0[1], a1[1]))
-            ctx.inst("C13-exports-only", "spec-tuples", tuples)
-            ok_t = False
-            for tl, p0, p1 in tuples:
-                if "Rename" in p0 or "Rename" in p1:
-                    ok_t = True
-                    if not (p0[-2:] == ["Rename", 0] and p1[-2:] == ["Rename", 1]):
-                        ctx.report("C13-exports-only", "rename-order", "(rename a b): the (internal, external) pair is built "
-                                   "from fields %s / %s" % (p0, p1), where_of(eld))
-            if not ok_t:
-                ctx.report("C13-exports-only", "shape", "export spec destructuring not recognised (fail closed)", where_of(eld))
-            # the insert key must be tuple field 1 (external), the lookup key tuple field 0 (internal)
-            def tuple_field(o):
-                # walk defs: local = copy _t.k
-                l = mir.op_local(o)
-                for _ in range(8):
-                    ds = mir.defs_of(eld).get(l, [])
-                    if len(ds) != 1:
-                        return None
-                    d = ds[0]
-                    if d[0] == "call":
-                        if p.is_pass(d[2]):
-                            l = mir.op_local(d[2]["args"][0])
-                            continue
-                        return None
-                    rv = d[3]["rv"]
-                    pl = rv["op"]["place"] if rv["k"] == "use" and mir.op_place(rv["op"]) else (rv["place"] if rv["k"] == "ref" else None)
-                    if pl is None:
-                        return None
-                    flds = [e for e in pl["proj"] if e["k"] == "field"]
-                    if flds and pl["local"] in [tt[0] for tt in tuples]:
-                        return flds[0]["i"]
-                    l = pl["local"]
-                return None
-            kf, gf = tuple_field(it["args"][1]), tuple_field(gt["args"][1])
-            ctx.inst("C13-exports-only", "tuple-fields", {"insert_key_field": kf, "lookup_key_field": gf})
-            if kf != 1 or gf != 0:
-                ctx.report("C13-exports-only", "key-fields", "the export map is keyed by tuple field %s and the value is "
-                           "looked up by field %s (expected external=1, internal=0)" % (kf, gf), where_of(eld, it))
-            # unbound export is an error
-            sw = mir.result_switch_after(eld, gb)
-            if sw:
-                none_t = sw[1].get(0, sw[2])
-                reg = mir.dominated_region(eld, none_t)
-                has_err = any(v == "UnboundedSymbol" for _, _, _, _, v in mir.aggregates(eld, reg))
-                ctx.inst("C13-exports-only", "unbound-export", {"err": has_err})
-                if not has_err:
-                    ctx.report("C13-exports-only", "unbound-export", "an export that is not defined does not raise an error",
-                               where_of(eld, gt))
+            b, t = libnew[0]
+            maplocal = mir.op_local(t["args"][1])
+            # all writers of the map
+            src = p.reach_locals(maplocal)
+            writers = []
+            for bb, tt in eld.calls():
+                for a in tt["args"][:1]:
+                    l = mir.op_local(a)
+                    if l is not None and eld.local_ty(l).startswith("&mut"):
+                        root, path = mir.trace_access(eld, a)
+                        if root in src and root != 1:
+                            writers.append((bb, tt))
+            names = sorted({callee(tt) for _, tt in writers})
+            ctx.inst("C13-exports-only", "map-writers", names)
+            for bb, tt in writers:
+                if not callee_matches(tt, "std::collections::HashMap::insert"):
+                    ctx.report("C13-exports-only", "writer/%s" % (callee(tt) or "?").rsplit("::", 1)[-1],
+                               "the export map is written by %s (only per-export insert is expected)" % callee(tt), where_of(eld, tt))
+            ins = [(bb, tt) for bb, tt in writers if callee_matches(tt, "std::collections::HashMap::insert")]
+            gets = [(bb, tt) for bb, tt in eld.calls() if callee_matches(tt, "environment::LexicalScope::get")]
+            if len(ins) != 1 or len(gets) != 1:
+                ctx.report("C13-exports-only", "shape", "expected one insert and one environment lookup per export "
+                           "(found %d, %d)" % (len(ins), len(gets)), where_of(eld))
+            else:
+                (ib, it), (gb, gt) = ins[0], gets[0]
+                if ib not in loops or gb not in loops:
+                    ctx.report("C13-exports-only", "loop", "exports are not copied out in a loop over the export specs", where_of(eld))
+                # environment of the lookup is the fresh one
+                cr = {n for _, n in p.call_roots(gt["args"][0])}
+                if cr != {"environment::LexicalScope::new"}:
+                    ctx.report("C13-exports-only", "lookup-env", "exported values are looked up in %s" % sorted(cr), where_of(eld, gt))
+                # value inserted derives from the lookup
+                vroots = {n for _, n in p.call_roots(it["args"][2])}
+                if "environment::LexicalScope::get" not in vroots:
+                    ctx.report("C13-exports-only", "value", "the exported value does not come from the library environment",
+                               where_of(eld, it))
+                # key = external name, lookup = internal name
+                kroot, kpath = mir.trace_access(eld, it["args"][1])
+                groot, gpath = mir.trace_access(eld, gt["args"][1])
+                ctx.inst("C13-exports-only", "names", {"insert_key": (kroot, kpath), "lookup_key": (groot, gpath)})
+                # both come from the (from, to) tuple; find the tuple aggregates and their variant sources
+                def spec_field(o):
+                    """which field of which ExportSpec variant the operand reads, per defining aggregate"""
+                    res = set()
+                    l = mir.op_local(o)
+                    reach = p.reach_locals(l)
+                    return reach
+                tuples = []
+                for bb, i, s in eld.stmts():
+                    if s["k"] == "assign" and s["rv"]["k"] == "aggregate" and s["rv"]["kind"]["k"] == "tuple" \
+                            and len(s["rv"]["ops"]) == 2:
+                        a0 = mir.trace_access(eld, s["rv"]["ops"][0])
+                        a1 = mir.trace_access(eld, s["rv"]["ops"][1])
+                        if any(x in ("Rename", "Direct") for x in a0[1] + a1[1]):
+                            tuples.append((s["place"]["local"], a0[1], a1[1]))
+                ctx.inst("C13-exports-only", "spec-tuples", tuples)
+                ok_t = False
+                for tl, p0, p1 in tuples:
+                    if "Rename" in p0 or "Rename" in p1:
+                        ok_t = True
+                        if not (p0[-2:] == ["Rename", 0] and p1[-2:] == ["Rename", 1]):
+                            ctx.report("C13-exports-only", "rename-order", "(rename a b): the (internal, external) pair is built "
+                                       "from fields %s / %s" % (p0, p1), where_of(eld))
+                if not ok_t:
+                    ctx.report("C13-exports-only", "shape", "export spec destructuring not recognised (fail closed)", where_of(eld))
+                # the insert key must be tuple field 1 (external), the lookup key tuple field 0 (internal)
+                def tuple_field(o):
+                    # walk defs: local = copy _t.k
+                    l = mir.op_local(o)
+                    for _ in range(8):
+                        ds = mir.defs_of(eld).get(l, [])
+                        if len(ds) != 1:
+                            return None
+                        d = ds[0]
+                        if d[0] == "call":
+                            if p.is_pass(d[2]):
+                                l = mir.op_local(d[2]["args"][0])
+                                continue
+                            return None
+                        rv = d[3]["rv"]
+                        pl = rv["op"]["place"] if rv["k"] == "use" and mir.op_place(rv["op"]) else (rv["place"] if rv["k"] == "ref" else None)
+                        if pl is None:
+                            return None
+                        flds = [e for e in pl["proj"] if e["k"] == "field"]
+                        if flds and pl["local"] in [tt[0] for tt in tuples]:
+                            return flds[0]["i"]
+                        l = pl["local"]
+                    return None
+                kf, gf = tuple_field(it["args"][1]), tuple_field(gt["args"][1])
+                ctx.inst("C13-exports-only", "tuple-fields", {"insert_key_field": kf, "lookup_key_field": gf})
+                if kf != 1 or gf != 0:
+                    ctx.report("C13-exports-only", "key-fields", "the export map is keyed by tuple field %s and the value is "
+                               "looked up by field %s (expected external=1, internal=0)" % (kf, gf), where_of(eld, it))
+                # unbound export is an error
+                sw = mir.result_switch_after(eld, gb)
+                if sw:
+                    none_t = sw[1].get(0, sw[2])
+                    reg = mir.dominated_region(eld, none_t)
+                    has_err = any(v == "UnboundedSymbol" for _, _, _, _, v in mir.aggregates(eld, reg))
+                    ctx.inst("C13-exports-only", "unbound-export", {"err": has_err})
+                    if not has_err:
+                        ctx.report("C13-exports-only", "unbound-export", "an export that is not defined does not raise an error",
+                                   where_of(eld, gt))
+    ctx.guarded('C13-exports-only', d_def >= 2, _old_exports)
 
     # ------------------------------------------------------------------ C13-export-parse
     ctx.rule("C13-export-parse", "(rename a b) is parsed as ExportSpec::Rename(internal a, external b)")
@@ -183,21 +190,32 @@ def run(ctx):
 
     # ------------------------------------------------------------------ C13-import-copies
     ctx.rule("C13-import-copies", "the importer gets its own bindings (define in the importer's frame)")
-    ei = fb.find("interpreter::interpreter::Interpreter::eval_import")
-    pi = Prov(ei)
-    defs = [(b, t) for b, t in ei.calls() if callee_matches(t, "LexicalScope::define")]
-    sets = [(b, t) for b, t in ei.calls() if callee_matches(t, "LexicalScope::set", "LexicalScope::get_mut")]
-    ctx.inst("C13-import-copies", "eval_import", {"define": len(defs), "set": len(sets)})
-    if not defs or sets:
-        ctx.report("C13-import-copies", "eval_import", "imports must create bindings with define (found %d define, %d "
-                   "set/get_mut)" % (len(defs), len(sets)), where_of(ei))
-    for b, t in defs:
-        if 3 not in pi.arg_roots(t["args"][0]):
-            ctx.report("C13-import-copies", "target", "imports are defined in a frame other than the `env` argument", where_of(ei, t))
+    from . import importtables as _imt
+    d_cp = _imt.rule_union(ctx, "C13-import-copies")
+
+    def _old_copies():
+        ei = fb.find("interpreter::interpreter::Interpreter::eval_import")
+        pi = Prov(ei)
+        defs = [(b, t) for b, t in ei.calls() if callee_matches(t, "LexicalScope::define")]
+        sets = [(b, t) for b, t in ei.calls() if callee_matches(t, "LexicalScope::set", "LexicalScope::get_mut")]
+        ctx.inst("C13-import-copies", "eval_import", {"define": len(defs), "set": len(sets)})
+        if not defs or sets:
+            ctx.report("C13-import-copies", "eval_import", "imports must create bindings with define (found %d define, %d "
+                       "set/get_mut)" % (len(defs), len(sets)), where_of(ei))
+        for b, t in defs:
+            if 3 not in pi.arg_roots(t["args"][0]):
+                ctx.report("C13-import-copies", "target", "imports are defined in a frame other than the `env` argument", where_of(ei, t))
+    ctx.guarded("C13-import-copies", d_cp >= 3, _old_copies)
 
     # ------------------------------------------------------------------ C13-single-instance
     ctx.rule("C13-single-instance", "all imports of a library refer to one instance (memoised instantiation)")
-    _single_instance(ctx, fb)
+    from . import libtables
+    ctx.rule("C14-no-negative-cache(shared)", "(see C14) a failed instantiation is not cached")
+    d_cache = libtables.rule_cache(ctx, "C13-single-instance", "C13-single-instance")
+    def _old_single():
+        _single_instance(ctx, fb)
+    ctx.guarded('C13-single-instance', d_cache >= 5, _old_single)
+
     return EXPLANATION, NOT_DECIDED
 
 
